@@ -117,6 +117,41 @@ def run(tier):
                 if words is not None:
                     acts.append(eval_action(words, tag={"k": "line", "line": line_json(variant)}))
         blocks.append((cfg, acts))
+    # destinations that already hold (unsorted) content, with sorting, clear-before-assign and unique data in every combination:
+    # as many values as were there before, one fewer, one more; all of them duplicates of what is there, some, none; one use,
+    # repeated uses, free values.  "Sorting yields ascending order" whatever the number of elements that were finally stored.
+    for _ in range(60 if tier == "quick" else 1500):
+        kind = g.r.choice(["vecint", "vecint", "dequeint", "listint", "vecstr"])
+        cfg = g.cfg(nargs=g.r.randint(1, 3), kinds=[kind, kind, "flag"], constraints=False, allow_pos=False)
+        conts = [i + 1 for i, a in enumerate(cfg["args"]) if a["kind"] == kind]
+        if not conts:
+            continue
+        ints = kind != "vecstr"
+        for i in conts:
+            a = cfg["args"][i - 1]
+            a["formats"] = []; a["checks"] = []; a["card"] = {"t": "dflt", "a": 0, "b": 0}; a["mand"] = False
+            a["multi"] = g.r.random() < 0.4; a["sort"] = g.r.random() < 0.8; a["clear"] = g.r.random() < 0.5
+            a["uniq"] = g.r.choice(["no", "ignore", "ignore", "error"])
+            n0 = g.r.randint(2, 4)
+            init = g.r.sample([30, 10, 20, 5, 4, 3, 77, -2], n0) if ints else g.r.sample(["pear", "apple", "fig", "kiwi", "Zed"], n0)
+            a["init"] = init if ints else [T(x) for x in init]
+        acts = []
+        for _ in range(nlines):
+            line = []
+            for i in g.r.sample(conts, g.r.randint(1, len(conts))):
+                a = cfg["args"][i - 1]
+                init = a["init"] if ints else [S(x) for x in a["init"]]
+                fresh = [9, 2, 7, 1, 50, 15, -8] if ints else ["lime", "date", "Yam", "b", "plum"]
+                n = max(1, len(init) + g.r.choice([-1, 0, 0, 0, 1]))
+                mode = g.r.choice(["dups", "fresh", "mixed"])
+                src = init if mode == "dups" else fresh if mode == "fresh" else init + fresh
+                vals = [str(x) for x in (g.r.sample(src, min(n, len(src))) if a["uniq"] == "error" and mode != "dups" else [g.r.choice(src) for _ in range(n)])]
+                line.append([i, vals])
+            for variant in (line, cuts(g, cfg, line)):
+                words = g.spell_line(cfg, variant)
+                if words is not None:
+                    acts.append(eval_action(words, tag={"k": "line", "line": line_json(variant)}))
+        blocks.append((cfg, acts))
     script2 = os.path.join(c.wd, "random.ndjson")
     write_cases(script2, blocks)
     rej, tr = run_script(c, exe, script2, "T")
